@@ -199,8 +199,11 @@ func Run(r *core.Run, engines []typed.Engine, fams []*rs.Schema, lockstep bool) 
 			perEngine := map[string]map[string]*agg{}
 			for _, base := range typed.FeedRoutes {
 				for _, route := range typed.FeedVariants(base) {
-					if route == "dagcbor" && !in.repr {
+					if (route == "dagcbor" || route == "dagjson") && !in.repr {
 						continue // bytes are decoded through the representation builder
+					}
+					if route == "dagjson" && !typed.JSONCarries(in.v) {
+						continue // the text format cannot carry this input (a repeated key, an integral float, …)
 					}
 					var outs []typed.Outcome
 					for _, eng := range engines {
